@@ -11,11 +11,12 @@
 (* slot is what the process has allocated on its behalf; the actions say   *)
 (* how it moves, and Balanced says that nothing stays behind.  TLC         *)
 (* enumerates the machine, generates call sequences (Gen_ObjLife) for      *)
-(* harness/h_objs.cpp, and Trace_ObjLife validates the ledger readings of  *)
-(* every call against the footprint rules:                                 *)
-(*   alloc adds exactly one block, linear in n; init adds what destroy     *)
-(*   removes; free removes what alloc added; new = alloc + init; delete =  *)
-(*   destroy + free; and each of these is a function of (type, n) only.    *)
+(* harness/h_objs.cpp, and Trace_ObjLife books the ledger readings of      *)
+(* every call on the slot it acts on and holds the account to conservation *)
+(* only: an empty slot holds nothing (free and delete give back all that   *)
+(* was acquired on its behalf), raw memory holds the same every time       *)
+(* (destroy gives back what init acquired), nothing is damaged or freed    *)
+(* twice.  The layout of the objects is not constrained.                   *)
 (***************************************************************************)
 EXTENDS Integers, FiniteSets, TLC
 CONSTANTS Types,      \* structure types
